@@ -432,3 +432,52 @@ func ZZ_C17_par_two_pushes() {
 		zz.Assert((err == nil) == (d2 < int64(lifespan)), "two pushes: the SECOND request_uri is honoured exactly until its own expiry")
 	}
 }
+
+// ZZ_C17_reconfigured: PAR enforcement and the request_uri lifetime are CHANGED between two requests on one
+// provider: a plain authorization request is accepted while PAR is not enforced and refused once it is (and
+// the other way round), and a request_uri pushed after the lifetime changed lives for the lifetime in force at
+// ITS push.
+func ZZ_C17_reconfigured() {
+	first := zz.Bool("first.enforce")
+	l1 := time.Duration(zz.Int("life1", int64(10*time.Second), int64(20*time.Minute)))
+	l2 := time.Duration(zz.Int("life2", int64(10*time.Second), int64(20*time.Minute)))
+	w := world.New(world.Options{
+		Tweak: func(cfg *fosite.Config) {
+			cfg.PushedAuthorizeContextLifespan = l1
+			cfg.IsPushedAuthorizeEnforced = first
+		},
+		Extra: []compose.Factory{compose.PushedAuthorizeHandlerFactory},
+	})
+	plain := func() error {
+		_, err := w.Provider.NewAuthorizeRequest(w.Ctx, world.Get(url.Values{"client_id": {"c1"}, "response_type": {"code"},
+			"redirect_uri": {"https://c1.example/cb"}, "scope": {"photos"}, "state": {"state-0123456789"}}))
+		return err
+	}
+	push := func() string {
+		form := url.Values{"client_id": {"c1"}, "client_secret": {secretOf("c1")}, "response_type": {"code"},
+			"redirect_uri": {"https://c1.example/cb"}, "scope": {"photos"}, "state": {"state-of-c1-0123456789"}}
+		ar, err := w.Provider.NewPushedAuthorizeRequest(w.Ctx, world.Post(form))
+		zz.Assume(err == nil)
+		resp, err := w.Provider.NewPushedAuthorizeResponse(w.Ctx, ar, world.NewSession("peter"))
+		zz.Assume(err == nil)
+		return resp.GetRequestURI()
+	}
+	err := plain()
+	zz.Assert((err != nil) == first, "reconfigured: first plain request judged by the enforcement in force")
+	_ = push() // a push under the first lifetime
+	w.Cfg.IsPushedAuthorizeEnforced = !first
+	w.Cfg.PushedAuthorizeContextLifespan = l2
+	err = plain()
+	zz.Observe("second.plain.err", world.ErrName(err))
+	zz.Assert((err != nil) == !first, "reconfigured: a plain authorization request is judged by the enforcement in force NOW")
+	uri := push()
+	d := zz.Int("advance", 0, int64(25*time.Minute))
+	margin := int64(3 * time.Second)
+	zz.Assume(zz.Or(d < int64(l2)-margin, d > int64(l2)+margin))
+	zz.Advance(time.Duration(d))
+	_, err = w.Provider.NewAuthorizeRequest(w.Ctx, world.Get(url.Values{"client_id": {"c1"}, "request_uri": {uri}}))
+	zz.Observe("use.err", world.ErrName(err))
+	zz.Assert((err == nil) == (d < int64(l2)), "reconfigured: a request_uri lives for the lifetime in force at ITS push")
+	zz.Cover("reconfigured:lifetime-shortened", l2 < l1)
+	zz.Cover("reconfigured:lifetime-extended", l2 > l1)
+}
